@@ -191,11 +191,12 @@ def runAdds (cd : Codec) (mf : MFile) : List ChangeSet → Option MFile
 
 /-- Invariant of a `manifestFile`: the file is a header followed by frames of change sets that
     replay (from the empty manifest) to the in-memory manifest. -/
-def MFile.Inv (cd : Codec) (lv : Bool) (mf : MFile) : Prop :=
+def MFile.Inv (cd : Codec) (lv cn : Bool) (mf : MFile) : Prop :=
   ∃ fsets m', mf.file = manifestFileOf cd mf.ext fsets ∧
     applyAll Manifest.empty fsets = some m' ∧ (∀ s, s ∈ fsets → ChangeSet.InRange s) ∧
-    m'.Equiv mf.manifest ∧ m'.WF ∧ mf.manifest.WF ∧
-    (lv = true → m'.LevelsOK ∧ mf.manifest.LevelsOK)
+    m'.EquivC cn mf.manifest ∧ m'.WF ∧ mf.manifest.WF ∧
+    (lv = true → m'.LevelsOK ∧ mf.manifest.LevelsOK) ∧
+    mf.pos = mf.file.length      -- the descriptor is at the end of the file: the next write appends
 
 theorem ord_nil (cd : Codec) (hv : cd.Valid) : cd.ord [] = [] :=
   List.perm_nil.mp (hv.ord_perm [])
@@ -203,40 +204,40 @@ theorem ord_nil (cd : Codec) (hv : cd.Valid) : cd.ord [] = [] :=
 theorem asChanges_empty (cd : Codec) (hv : cd.Valid) : asChanges cd Manifest.empty = [] := by
   simp [asChanges, Manifest.empty, ord_nil cd hv]
 
-theorem MFile.create_inv (cd : Codec) (hv : cd.Valid) (lv : Bool) (ext : Nat) (t : Int) :
-    (MFile.create cd ext t).Inv cd lv := by
-  refine ⟨[[]], Manifest.empty, ?_, rfl, ?_, ?_, Manifest.WF_empty, ?_, ?_⟩
+theorem MFile.create_inv (cd : Codec) (hv : cd.Valid) (lv cn : Bool) (ext : Nat) (t : Int) :
+    (MFile.create cd ext t).Inv cd lv cn := by
+  refine ⟨[[]], Manifest.empty, ?_, rfl, ?_, ?_, Manifest.WF_empty, ?_, ?_, rfl⟩
   · simp [MFile.create, rewriteFile, manifestFileOf, framesOf, asChanges_empty cd hv]
   · intro s hs c hc
     simp only [List.mem_singleton] at hs
     subst hs
     cases hc
   · simp only [MFile.create, Manifest.clone, asChanges_empty cd hv, applyChangeSet]
-    exact Manifest.Equiv.refl _
+    exact (Manifest.Equiv.refl _).toC cn
   · simp only [MFile.create, Manifest.clone, asChanges_empty cd hv, applyChangeSet]
     exact Manifest.WF_empty
   · intro _
     simp only [MFile.create, Manifest.clone, asChanges_empty cd hv, applyChangeSet]
     exact ⟨Manifest.LevelsOK_empty, Manifest.LevelsOK_empty⟩
 
-theorem MFile.addChanges_inv (cd : Codec) (hv : cd.Valid) (lv : Bool) (mf mf' : MFile) (cs : ChangeSet)
+theorem MFile.addChanges_inv (cd : Codec) (hv : cd.Valid) (lv cn : Bool) (mf mf' : MFile) (cs : ChangeSet)
     (hcs : ChangeSet.InRange cs) (hsl : lv = true → ∀ c, c ∈ cs → c.SmallLevel)
-    (hinv : mf.Inv cd lv) (hadd : mf.addChanges cd cs = (mf', none)) :
-    mf'.Inv cd lv ∧ mf'.ext = mf.ext ∧ mf'.threshold = mf.threshold := by
-  obtain ⟨fsets, m', hfile, hall, hfr, heq, hw', hw, hlv⟩ := hinv
+    (hinv : mf.Inv cd lv cn) (hadd : mf.addChanges cd cs = (mf', none)) :
+    mf'.Inv cd lv cn ∧ mf'.ext = mf.ext ∧ mf'.threshold = mf.threshold := by
+  obtain ⟨fsets, m', hfile, hall, hfr, heq, hw', hw, hlv, hpos⟩ := hinv
   unfold MFile.addChanges at hadd
   simp only at hadd
   rcases happ : applyChangeSet mf.manifest cs with ⟨m1, _ | e⟩
   · rw [happ] at hadd
     simp only at hadd
-    obtain ⟨m1', happ', heq1⟩ := applyChangeSet_congr cs heq.symm happ
+    obtain ⟨m1', happ', heq1⟩ := applyChangeSet_congrC cs cn heq.symm happ
     have hw1 : m1.WF := applyChangeSet_WF cs hcs hw happ
     have hw1' : m1'.WF := applyChangeSet_WF cs hcs hw' happ'
     split at hadd
     · -- rewrite
       cases hadd
       obtain ⟨m2, h2, hw2, heq2⟩ := applyChangeSet_asChanges cd hv m1 hw1
-      refine ⟨⟨[asChanges cd m1], m2, ?_, ?_, ?_, heq2, hw2, ⟨hw1.nodup, hw1.level_lt, hw1.range⟩, ?_⟩, rfl, rfl⟩
+      refine ⟨⟨[asChanges cd m1], m2, ?_, ?_, ?_, heq2.toC cn, hw2, ⟨hw1.nodup, hw1.level_lt, hw1.range⟩, ?_, rfl⟩, rfl, rfl⟩
       · simp [rewriteFile, manifestFileOf, framesOf]
       · simp [applyAll, h2]
       · intro s hs
@@ -249,8 +250,8 @@ theorem MFile.addChanges_inv (cd : Codec) (hv : cd.Valid) (lv : Bool) (mf mf' : 
     · -- append
       cases hadd
       refine ⟨⟨fsets ++ [cs], m1', ?_, ?_, ?_, heq1.symm, hw1', hw1, fun hl =>
-        ⟨applyChangeSet_LevelsOK cs (hsl hl) (hlv hl).1 happ', applyChangeSet_LevelsOK cs (hsl hl) (hlv hl).2 happ⟩⟩, rfl, rfl⟩
-      · simp [hfile, manifestFileOf, framesOf_append, framesOf_cons]
+        ⟨applyChangeSet_LevelsOK cs (hsl hl) (hlv hl).1 happ', applyChangeSet_LevelsOK cs (hsl hl) (hlv hl).2 happ⟩, ?_⟩, rfl, rfl⟩
+      · simp [hpos, writeAt_end, hfile, manifestFileOf, framesOf_append, framesOf_cons]
       · rw [applyAll_append, hall]
         simp [applyAll, happ']
       · intro s hs
@@ -259,20 +260,21 @@ theorem MFile.addChanges_inv (cd : Codec) (hv : cd.Valid) (lv : Bool) (mf mf' : 
         · simp only [List.mem_singleton] at h
           subst h
           exact hcs
+      · simp [hpos, writeAt_end]
   · rw [happ] at hadd
     simp at hadd
 
 theorem runAdds_inv (cd : Codec) (hv : cd.Valid) (lv : Bool) (mf mf' : MFile) (sets : List ChangeSet)
     (hsets : ∀ s, s ∈ sets → ChangeSet.InRange s)
     (hsl : lv = true → ∀ s, s ∈ sets → ∀ c, c ∈ s → c.SmallLevel)
-    (hinv : mf.Inv cd lv) (hrun : runAdds cd mf sets = some mf') : mf'.Inv cd lv ∧ mf'.ext = mf.ext := by
+    (hinv : mf.Inv cd lv true) (hrun : runAdds cd mf sets = some mf') : mf'.Inv cd lv true ∧ mf'.ext = mf.ext := by
   induction sets generalizing mf with
   | nil => simp only [runAdds] at hrun; cases hrun; exact ⟨hinv, rfl⟩
   | cons cs sets ih =>
     simp only [runAdds] at hrun
     rcases hadd : mf.addChanges cd cs with ⟨mf1, _ | e⟩
     · rw [hadd] at hrun
-      obtain ⟨h1, hext, _⟩ := MFile.addChanges_inv cd hv lv mf mf1 cs (hsets cs (by simp))
+      obtain ⟨h1, hext, _⟩ := MFile.addChanges_inv cd hv lv true mf mf1 cs (hsets cs (by simp))
         (fun hl => hsl hl cs (by simp)) hinv hadd
       obtain ⟨h2, hext2⟩ := ih mf1 (fun s hs => hsets s (by simp [hs]))
         (fun hl s hs => hsl hl s (by simp [hs])) h1 hrun
@@ -293,11 +295,11 @@ theorem C17_replay_exact (cd : Codec) (hv : cd.Valid) (ext : Nat) (hext : ext < 
     ∃ m, replay cd mf.file ext = .ok (m, mf.file.length) ∧
       (∀ id, m.lookup id = mf.manifest.lookup id) ∧
       m.creations = mf.manifest.creations ∧ m.deletions = mf.manifest.deletions := by
-  obtain ⟨⟨fsets, m', hfile, hall, hfr, heq, _, _, _⟩, hext'⟩ :=
-    runAdds_inv cd hv false _ mf sets hsets (by intro h; cases h) (MFile.create_inv cd hv false ext threshold) hrun
+  obtain ⟨⟨fsets, m', hfile, hall, hfr, heq, _, _, _, _⟩, hext'⟩ :=
+    runAdds_inv cd hv false _ mf sets hsets (by intro h; cases h) (MFile.create_inv cd hv false true ext threshold) hrun
   have hext'' : mf.ext = ext := hext'
   rw [hext''] at hfile
-  refine ⟨m', ?_, heq.1, heq.2.1, heq.2.2⟩
+  refine ⟨m', ?_, heq.1, (heq.2 rfl).1, (heq.2 rfl).2⟩
   rw [hfile] at hsize ⊢
   exact replay_intact cd hv ext hext fsets m' hall hfr hsize
 
@@ -315,8 +317,8 @@ theorem C17_replay_exact_levels (cd : Codec) (hv : cd.Valid) (ext : Nat) (hext :
       (∀ id, m.lookup id = mf.manifest.lookup id) ∧
       (∀ l id, id ∈ levelAt m.levels l ↔ id ∈ levelAt mf.manifest.levels l) ∧
       m.LevelsOK ∧ mf.manifest.LevelsOK := by
-  obtain ⟨⟨fsets, m', hfile, hall, hfr, heq, _, _, hlv⟩, hext'⟩ :=
-    runAdds_inv cd hv true _ mf sets hsets (fun _ => hsl) (MFile.create_inv cd hv true ext threshold) hrun
+  obtain ⟨⟨fsets, m', hfile, hall, hfr, heq, _, _, hlv, _⟩, hext'⟩ :=
+    runAdds_inv cd hv true _ mf sets hsets (fun _ => hsl) (MFile.create_inv cd hv true true ext threshold) hrun
   have hext'' : mf.ext = ext := hext'
   rw [hext''] at hfile
   obtain ⟨hl1, hl2⟩ := hlv rfl
